@@ -3,6 +3,7 @@
 package checks
 
 import (
+	"time"
 	"fmt"
 	"math/rand"
 	"os"
@@ -231,6 +232,40 @@ func C17(e *Env) {
 			run.Sample(map[string]any{"image": s.img, "session": s.desc, "requests": trimReqs(s.reqs)})
 		}
 	})
+	// the image behind a path is replaced by a dump of another raw sector size and exactly the same
+	// length (918 x 2336 = 876 x 2448 bytes; 1176 x 2048 = 1024 x 2352), and the path is opened again on
+	// the same connection and on a new one: the sector size is that of the image which is there now
+	for si, pair := range [][3]int64{{2336, 2448, 2144448}, {2448, 2336, 2144448}, {2048, 2352, 2408448}, {2352, 2048, 2408448}, {2336, 0, 2144448}} {
+		rel := fmt.Sprintf("cd/swap%d.bin", si)
+		must(os.MkdirAll(filepath.Join(root, "cd"), 0o755))
+		mk := func(S int64, seed int64) *cdImage {
+			img := &cdImage{rel: rel, S: S, sig: []string{"iso", "psx"}[si%2], size: pair[2], wantS: S}
+			if S == 0 { // no signature at all: 2352 assumed
+				img.S, img.sig, img.wantS = 2340, "none", 2352
+			}
+			makeCD(root, img, seed, nil)
+			return img
+		}
+		first := mk(pair[0], int64(7000+si))
+		reqs := []wire.Req{wire.P(wire.OpOpen, "/"+rel), wire.CD(16, 1), wire.CD(3, 2), wire.CD(800, 3),
+			wire.P(wire.OpOpen, "/"+rel), wire.CD(16, 1), wire.CD(3, 2), wire.CD(800, 3), wire.P(wire.OpOpen, "/CLOSEFILE"), wire.P(wire.OpOpen, "/"+rel), wire.CD(5, 1)}
+		var second *cdImage
+		res := RunLockstepOpt(addr, w, reqs, e.Watchdog, LockOpt{OnStep: func(i int, r wire.Req, t0, t1 time.Time) {
+			if i == 3 {
+				second = mk(pair[1], int64(7100+si))
+			}
+		}})
+		run.Eval(len(reqs))
+		res2 := RunLockstep(addr, w, []wire.Req{wire.P(wire.OpOpen, "/"+rel), wire.CD(16, 1), wire.CD(801, 2)}, e.Watchdog, 0, false)
+		run.Sig("image replaced by one of another sector size and the same length: %d -> %d", pair[0], pair[1])
+		for _, rr := range []SessionResult{res, res2} {
+			if rr.Fail != nil && !rr.Fail.Inconclusive {
+				run.Violate(rr.Fail.Rule, fmt.Sprintf("replaced,S=%d->%d", pair[0], pair[1]), fmt.Sprintf("[image %s of raw sector size %d replaced by one of sector size %d and the same length %d, then opened again] %s", rel, first.S, second.S, pair[2], rr.Fail.Detail),
+					map[string]any{"first": first, "second": second, "requests": reqStrings(reqs), "failed_at": rr.FailAt, "transcript": tailStr(rr.Log, 12)})
+				break
+			}
+		}
+	}
 	run.Obs("images", len(imgs))
 	run.Obs("sessions", len(list))
 	CrashCheck(e, p, "c17 worker", nil)
